@@ -318,6 +318,68 @@ class CsOracle:
         pat = re.escape(expected).replace(re.escape(ANY), r"[\w<>,()?]+")
         return re.fullmatch(pat, got) is not None
 
+    def check_literals(self, t: dict, got: str, locus: str, depth: int) -> None:
+        """anonymous literal types inside a member's type: the C# type written at that position has to name a generated class
+        of its own - not a type the metamodel declares - whose data members are the literal's properties (for several
+        literal alternatives merged into one class: the union of their properties)."""
+        m = self.m
+        got = got[:-1] if got.endswith("?") else got
+        k = t["kind"]
+        if depth > 6:
+            return
+        if k == "or":
+            items = [i for i in t["items"] if not m.is_null(i)]
+            if len(items) == 1:
+                return self.check_literals(items[0], got, locus, depth + 1)
+            if items and all(i["kind"] == "literal" for i in items):
+                props: Dict[str, dict] = {}
+                for i in items:
+                    for q in i["value"]["properties"]:
+                        props.setdefault(q["name"], q)
+                if props:
+                    self.literal_class(got, list(props.values()), locus, depth, merged=True)
+                return
+            if got.startswith("OrType<") and got.endswith(">"):
+                parts = split_params(got[len("OrType<"):-1])
+                if len(parts) == len(items):
+                    for i, g_ in zip(items, parts):
+                        self.check_literals(i, g_, locus, depth + 1)
+            return
+        if k == "array" and got.startswith("ImmutableArray<") and got.endswith(">"):
+            return self.check_literals(t["element"], got[len("ImmutableArray<"):-1], locus + "[]", depth + 1)
+        if k == "map" and got.startswith("ImmutableDictionary<") and got.endswith(">"):
+            parts = split_params(got[len("ImmutableDictionary<"):-1])
+            if len(parts) == 2:
+                self.check_literals(t["value"], parts[1], locus + "{}", depth + 1)
+            return
+        if k == "literal" and t["value"]["properties"]:
+            self.literal_class(got, t["value"]["properties"], locus, depth, merged=False)
+
+    def literal_class(self, got: str, props: List[dict], locus: str, depth: int, merged: bool) -> None:
+        self.evaluations += 1
+        if not re.fullmatch(r"\w+", got):
+            return
+        if got in self.strict_names():
+            self.fail("literal-class", locus, f"the anonymous literal type is written as {got}, a type the metamodel declares")
+            return
+        cls = self.classes.get(got)
+        if cls is None:
+            self.fail("literal-class", locus, f"the anonymous literal type is written as {got}, which no generated file declares")
+            return
+        wires = {p_["wire"]: p_ for p_ in cls.props if p_["wire"] is not None}
+        want = {q["name"]: q for q in props}
+        self.evaluations += 1
+        if set(wires) != set(want):
+            self.fail("literal-class", locus, f"class {got} has data members {sorted(wires)}, the literal declares {sorted(want)}")
+            return
+        for name, q in want.items():
+            self.evaluations += 1
+            exp_t = self.map(q["type"])
+            if not self.type_matches(exp_t, wires[name]["type"]):
+                self.fail("member-type", f"{locus}.{name}", f"type {wires[name]['type']}, expected {exp_t}")
+            else:
+                self.check_literals(q["type"], wires[name]["type"], f"{locus}.{name}", depth + 1)
+
     def check_struct(self, sname: str, cls: CsClass, props: List[dict]) -> None:
         m = self.m
         by_wire: Dict[str, dict] = {}
@@ -349,6 +411,8 @@ class CsOracle:
             self.evaluations += 1
             if not self.type_matches(exp_t, g["type"]):
                 self.fail("member-type", f"{sname}.{name}", f"type {g['type']}, expected {exp_t}")
+            else:
+                self.check_literals(p["type"], g["type"], f"{sname}.{name}", 0)
             value_collection = g["type"].startswith("ImmutableArray<") or g["type"].startswith("ImmutableDictionary<")
             ignore = any("NullValueHandling.Ignore" in a for a in g["attrs"])
             self.evaluations += 2
